@@ -260,7 +260,11 @@ def judge(b, a, act):
     problems.append((kind, 'rename of protected column %s.%s to %r was accepted%s' % (
       t, c, cren[(t, c)], ('; values changed: ' + '; '.join(changed[:3])) if changed else '')))
   elif changed and info['fresh']:
-    if tmap and data_changed and alt_text_only:
+    if any(n == 'manualSort' for n in cren.values()):
+      # a table without a manualSort column (a summary table) accepts it as a NEW column name; the column then IS
+      # the table's manualSort: sorted lookups on the table use it as their tie-break (and depend on it)
+      kind = 'rename_to_manualsort_in_table_without_it'
+    elif tmap and data_changed and alt_text_only:
       # RenameTable retypes Ref:Old columns to Int and back: alternative text that parses as a number becomes a row id
       kind = 'rename_table_reinterprets_alt_text_in_reference_columns'
     elif culprit_tags and culprit_tags <= set(GAP_KINDS) and len(culprit_tags) == 1:
@@ -530,7 +534,7 @@ def replay(ctx, w):
 # ---- known findings: one matcher per root cause (the oracle's own classification, see judge) -----------------
 KINDS = ['rename_of_summary_group_column', 'rename_of_manualsort_column', 'rename_to_helper_prefix_removes_column',
          'rename_table_reinterprets_alt_text_in_reference_columns', 'ref_to_table_named_like_function',
-         'comprehension_over_reference_list']
+         'comprehension_over_reference_list', 'rename_to_manualsort_in_table_without_it']
 
 
 def _kind_matcher(name):
